@@ -117,9 +117,13 @@ def r3(run, db):
         c = cs[0]
         run.check(not sb.in_cycle(c.site), "%s|pre_start-not-in-cycle" % rt, "the pre_start race is not in a CFG cycle (no retry)", "the pre_start race is inside a cycle: pre_start can run twice", c.where())
         # status gate, possibly in an enclosing body
-        gate = dominated_in_chain(db, sb, c.site, lambda f, s: (lambda g: bool(g) and admitted_statuses(g) == ["Unstarted"])(status_gates_at(f, s)))
-        run.check(gate, "%s|status-gate" % rt, "pre_start is reachable only while a fresh status read says Unstarted (second start rejected)",
-                  "pre_start is not behind a status gate that admits only Unstarted", c.where())
+        gs_ = status_gates_in_chain(db, sb, c.site)
+        adm_ = admitted_statuses(gs_)
+        # Unstarted must pass; every status that implies an earlier start (Starting, Running, Upgrading) or a dead actor
+        # (Stopping, Stopped) must be refused.  Draining is reachable without any start (drain() on a fresh cell) and may pass.
+        bad_ = [v for v in adm_ if v in ("Starting", "Running", "Upgrading", "Stopping", "Stopped")]
+        run.check(bool(gs_) and "Unstarted" in adm_ and not bad_, "%s|status-gate" % rt, "pre_start is reachable only under a fresh status gate admitting %s (a second start, or the start of a dead actor, is rejected)" % adm_,
+                  "pre_start is %s" % ("not behind a status gate" if not gs_ else "reachable while the status is %s: the actor could be started twice / after it stopped" % bad_ if bad_ else "unreachable for a fresh (Unstarted) actor"), c.where())
         # the gate's true edge returns Err(ActorAlreadyStarted) without reaching pre_start: implied by dominance of the false edge
         aw = await_of_call(sb, c)
         run.anchor("%s await of the pre_start race" % rt, len(aw), 1)
@@ -179,6 +183,39 @@ def r4(run, db):
         for lp in loops:
             pc = [x for x in lp.calls() if x.callee == pb_root.id]
             run.check(len(pc) == 1 and lp.in_cycle(pc[0].site), "%s|loop-cycle" % rt, "the message step is the only step call and sits in the loop cycle", None, lp.where())
+
+
+def loop_result_flag_edges(db, m, rt):
+    """(lb, await of the loop future, [(killed_edge, not_killed_edge)]) for the bool flag of the loop result (was_killed)"""
+    lb = m.loop_body(rt)
+    pb_root = db.root_of(m.proc_body(rt))
+    loops = [ch for ch in db.children(lb.id) if any(x.callee == pb_root.id for x in ch.calls())]
+    if not loops:
+        return lb, None, []
+    lp = loops[0]
+    thr = lambda cc: 0 if cc.matches(r"Pin::<Ptr>::new_unchecked$|IntoFuture::into_future$|Box::<T>::pin$|FutureExt::catch_unwind$|TryFutureExt::map_err$|Pin::<Ptr>::new$") else None
+    loop_aw = None
+    for a in awaits(lb):
+        for r in lb.origins(a.poll.args[0], through=thr):
+            if r["k"] == "agg" and r["stmt"]["rv"].get("def") == lp.id:
+                loop_aw = a
+            if r["k"] == "agg" and r["stmt"]["rv"].get("adt", "").endswith("AssertUnwindSafe"):
+                for o in r["stmt"]["rv"]["ops"]:
+                    for rr in lb.origins(o, through=thr):
+                        if rr["k"] == "agg" and rr["stmt"]["rv"].get("def") == lp.id:
+                            loop_aw = a
+    if loop_aw is None:
+        return lb, None, []
+    out = []
+    for site, t in lb.switches():
+        if t["dty"] != "bool":
+            continue
+        roots = lb.origins(t["discr"], through=THROUGH_TRY)
+        if any(r["k"] == "call" and r["call"].bb == loop_aw.poll.bb for r in roots):
+            neg = any(s["k"] == "assign" and s["rv"]["k"] == "un" and s["rv"]["op"] == "Not" and s["lhs"][0] == (op_place(t["discr"]) or [None])[0] for _, s in lb.stmts())
+            te, fe = lb.edge_of(site, "true"), lb.edge_of(site, "false")
+            out.append((fe, te) if neg else (te, fe))
+    return lb, loop_aw, out
 
 
 def r5(run, db):
